@@ -520,9 +520,13 @@ class C01(Prop):
         yield mk('c01.spec.blk', s, tag='spec')
         # through the real constructor: the merkle root must be the one the library computes
         if b['vtx']:
-            root = self.C.CBlock.build_merkle_tree_from_txs([txfmt.to_tx(t) for t in b['vtx']])[-1]
-            b2 = dict(hdr=dict(b['hdr'], merkle=bytes(root)), vtx=b['vtx'])
-            yield mk('c01.ser.blk', txfmt.show_block(b2), rng.choice(('ctor', 'ctor-mutable')), tag='ser')
+            try:
+                root = self.C.CBlock.build_merkle_tree_from_txs([txfmt.to_tx(t) for t in b['vtx']])[-1]
+            except Exception:  # noqa: BLE001 - the generator must survive a broken working tree
+                root = None
+            if root is not None:
+                b2 = dict(hdr=dict(b['hdr'], merkle=bytes(root)), vtx=b['vtx'])
+                yield mk('c01.ser.blk', txfmt.show_block(b2), rng.choice(('ctor', 'ctor-mutable')), tag='ser')
         else:
             yield mk('c01.ser.blk', s, 'ctor', tag='ser')
         for pad in (0, 1):
@@ -686,5 +690,16 @@ def shrink_tx(t):
             break
     if t['ver'] != 1:
         yield cp(ver=1)
-    if t['lock'] != 0:
+    if t['lock'] not in (0, 2 ** 31):
         yield cp(lock=0)
+        yield cp(lock=2 ** 31)
+    z = b'\x00' * 32
+    for j, (h, n, s, q) in enumerate(t['vin']):
+        if (h, n, q) != (z, 0, 0):
+            for cand in ((z, n, s, q), (h, 0, s, q), (h, n, s, 0), (h, 2 ** 31, s, q), (h, n, s, 2 ** 31)):
+                if cand != (h, n, s, q):
+                    yield cp(vin=t['vin'][:j] + [cand] + t['vin'][j + 1:])
+    for j, (v, s) in enumerate(t['vout']):
+        if v not in (0, -1):
+            yield cp(vout=t['vout'][:j] + [(0, s)] + t['vout'][j + 1:])
+            yield cp(vout=t['vout'][:j] + [(-1, s)] + t['vout'][j + 1:])
